@@ -516,6 +516,26 @@ func isByteElem(t types.Type) bool {
 	return ok && (b.Kind() == types.Uint8 || b.Kind() == types.Byte)
 }
 
+// errOf converts a concrete error value to the error interface. A package-level registered error (a global
+// *errors.Error that is never reassigned) converts to the same non-nil error everywhere, so that errors.Is against
+// it means the same thing in the code and in a contract; any other concrete value converts to a fresh non-nil error.
+func (ex *Exec) errOf(st *State, v Val, hint string) *Term {
+	switch x := v.(type) {
+	case *Term:
+		if x.Sort == SErr {
+			return x
+		}
+		if x.Op == "var" && strings.HasPrefix(x.Str, "glob_Err") {
+			e := Det("err_of_registered", SErr, x)
+			st.AssumeDef(Neq(e, ErrNil))
+			return e
+		}
+	case *IfaceV:
+		return ex.errOf(st, x.V, hint)
+	}
+	return ex.freshNonNilErr(st, hint)
+}
+
 // freshNonNilErr: a non-nil error identified by the program point that creates it.
 func (ex *Exec) freshNonNilErr(st *State, hint string) *Term {
 	e := Var("err_"+hint+"@"+ex.site, SErr)
@@ -1499,7 +1519,7 @@ func (ex *Exec) makeInterface(st *State, v Val, from, to types.Type) Val {
 			return t
 		}
 		// a concrete error value converted to error: non-nil
-		return ex.freshNonNilErr(st, "conv")
+		return ex.errOf(st, v, "conv")
 	}
 	return &IfaceV{Dyn: from, V: v}
 }
